@@ -289,9 +289,9 @@ func IsInputError(err error) bool {
 	return errors.As(err, &ie)
 }
 
-// RunOpReuse: one operator instance, Init once with cur's node, Apply prev's inputs (result
-// discarded, errors/panics ignored) and then cur's inputs.
-func RunOpReuse(prev, cur *OpCase) (res Result) {
+// RunOpReuse: one operator instance, Init once with cur's node, Apply the inputs of every case of the
+// chain (results discarded, errors/panics ignored) and then cur's inputs.
+func RunOpReuse(chain []*OpCase, cur *OpCase) (res Result) {
 	phase := "get"
 	defer catch(&res, &phase)
 	op, err := opset13.GetOperator(cur.Op)
@@ -304,12 +304,14 @@ func RunOpReuse(prev, cur *OpCase) (res Result) {
 		res.Err, res.Phase = err, phase
 		return
 	}
-	func() {
-		defer func() { recover() }()
-		if vin, err := op.ValidateInputs(ToGs(TJsT(prev.Inputs))); err == nil {
-			op.Apply(vin)
-		}
-	}()
+	for _, prev := range chain {
+		func() {
+			defer func() { recover() }()
+			if vin, err := op.ValidateInputs(ToGs(TJsT(prev.Inputs))); err == nil {
+				op.Apply(vin)
+			}
+		}()
+	}
 	g := ToGs(TJsT(cur.Inputs))
 	phase = "validate"
 	vin, err := op.ValidateInputs(g)
